@@ -577,7 +577,7 @@ def extract_lalrpop_action(repo, spec, ex):
     return dict(symbols=symbols, action=action.replace('<>', param), fallible=fallible, result_type=ty, param=param)
 
 
-_DIR = re.compile(r'/\*@(type|macro|fn|body|expr|action|let)\b(.*?)@\*/', re.S)
+_DIR = re.compile(r'/\*@(type|macro\?|macro|fn|body|expr|action|let)(?![A-Za-z])(.*?)@\*/', re.S)
 
 
 def build_unit(repo, template_text):
@@ -597,6 +597,13 @@ def build_unit(repo, template_text):
             out.append(extract_type(repo, arg.strip(), ex))
         elif kind == 'macro':
             out.append(extract_macro(repo, arg.strip(), ex))
+        elif kind == 'macro?':
+            # optional helper macro: copied if it (still) exists; code that needs it then fails to compile (exit 2), code that
+            # no longer uses it is unaffected
+            try:
+                out.append(extract_macro(repo, arg.strip(), ex))
+            except (ExtractError, ScanError):
+                out.append('// (macro not present in the current tree)')
         elif kind == 'body':
             out.append(extract_fn(repo, arg, None, ex, body_only=True))
         elif kind == 'let':
